@@ -290,7 +290,9 @@ fn run_inner(case: &RrCase, opts: RrOpts, facts: &mut RrFacts) -> Result<(), Out
             }
             RrOp::RegRep { cap } => {
                 if !closed && reps.len() < 5 {
-                    let (si, st) = (MockSink::new(CAPS[*cap as usize % CAPS.len()]), MockStream::default());
+                    // cap 3: a sink that is not ready even for its first frame while blocked
+                    let capv = if *cap % 4 == 3 { 0 } else { CAPS[*cap as usize % CAPS.len()] };
+                    let (si, st) = (MockSink::new_exact(capv), MockStream::default());
                     if tx.try_send(reqrep::Socket::Server((Box::pin(si.clone()), Box::pin(st.clone())))).is_ok() {
                         sinks.push((true, reps.len()));
                         if reps.iter().any(|p| p.gone_at.is_none()) {
@@ -974,7 +976,7 @@ pub fn op_strategy(g: RrGen) -> BoxedStrategy<RrOp> {
     let sel = || any::<u16>();
     let mut v: Vec<(u32, BoxedStrategy<RrOp>)> = vec![
         (8, (0u8..3).prop_map(|cap| RrOp::RegReq { cap }).boxed()),
-        (if g.many_repliers { 12 } else if g.prelude { 2 } else { 6 }, (0u8..3).prop_map(|cap| RrOp::RegRep { cap }).boxed()),
+        (if g.many_repliers { 12 } else if g.prelude { 2 } else { 6 }, (0u8..4).prop_map(|cap| RrOp::RegRep { cap }).boxed()),
         (22, (sel(), 0u8..6).prop_map(|(r, hdr)| RrOp::Request { r, hdr }).boxed()),
         (20, (sel(), sel(), 0u8..12).prop_map(|(k, which, mutation)| RrOp::Reply { k, which, mutation }).boxed()),
         (2, sel().prop_map(|r| RrOp::PushErrReq { r }).boxed()),
